@@ -99,6 +99,47 @@ CLAIMED = {
             "alphabets/lengths the evidence is sampling.",
             "TLA+ spec as oracle: TLC-generated exhaustive match table replayed on real code + TLC trace validation of random cases",
             "DESIGN.md §4 C07"),
+    "C10": ("model_checking",
+            "Store.tla models construction of the client store at the grain of store.go: cache load (only a well-formed document is used), "
+            "stubs, init rounds (one Get per still-missing secret per round, never for a secret already obtained or supplied by the cache), the "
+            "doubling back-off 1 ms .. 4096 ms, the caller's deadline, the final flush, and the file-backed client (succeed or fail at once). TLC "
+            "checks InitOK / LookupGate / HandleNeverDangles exhaustively over declared sets (duplicates included) x cache classes x failure scripts "
+            "x deadlines. Random scripted-service histories of the real NewStore, run under testing/synctest (virtual time), are validated line "
+            "by line by TLC (StoreTrace): every request, its virtual timestamp (so each back-off delay and the prompt return at the deadline are "
+            "exact), the cache write and the return.",
+            "Virtual time (testing/synctest); the scripted StoreClient honours contexts like the HTTP client does. Misconfigurations are the "
+            "three listed ones (no client, nothing to fetch, empty name).",
+            "TLC exhaustive check of Store.tla (init configuration) + TLC trace validation of recorded synctest histories of the real NewStore",
+            "DESIGN.md §4 C10"),
+    "C11": ("model_checking",
+            "Store.tla models a poll as snapshot / one conditional request per known secret / apply-or-abort / cache flush, with overlapping "
+            "Refresh callers and ticks joining the round in flight. TLC checks PollConverges (every known secret ends at a version that was the "
+            "service's active one at some instant during the poll), Coalesce and that a failed poll changes nothing, over all interleavings of "
+            "activations forwards and backwards, request failures, reads, handles and refresh callers. Random gated histories of the real store "
+            "(driver releases each request; service changes between requests; restarts) are validated line by line; the real poller with a real "
+            "time.Ticker on the virtual clock is validated against Cadence.tla (one fixed period within +/-10% of the interval).",
+            "Freshness is judged by version number, as the protocol does. Refresh joiners inherit the first caller's context (not modelled as ending).",
+            "TLC exhaustive check of Store.tla (poll configuration) + TLC trace validation of recorded histories + cadence trace validation",
+            "DESIGN.md §4 C11"),
+    "C16": ("model_checking",
+            "Store.tla models lookups: the gate (no request for an undeclared name when lookups are disabled), one flight per name, per-caller "
+            "contexts with the five-minute fallback, timers due at one instant firing in any order, retry after the leader's context ended, "
+            "give-up at the caller's own deadline, a real service error reported to every member without retry and without installing anything. "
+            "TLC checks LookupGate, Bounded and NotCollateral over callers x deadlines x cancellations x services that answer, fail or hang with an "
+            "explicit clock; random histories of the real store under synctest (hanging service, clock advanced by up to 20 virtual minutes) are "
+            "validated line by line, so a caller still pending after its bound, a second concurrent request, or a foreign cancellation is rejected.",
+            "Virtual time; a hanging service is a request the driver never releases.",
+            "TLC exhaustive check of Store.tla (lookup configuration) + TLC trace validation of recorded synctest histories",
+            "DESIGN.md §4 C16"),
+    "C19": ("model_checking",
+            "Store.tla models expiry: a secret is marked expired in the poll snapshot iff it is undeclared, an age is set, it has not been read for "
+            "longer than the age and no handle exists; it is dropped at the end of a successful poll unless a handle appeared meanwhile; reads "
+            "stamp the access time, stamps are persisted by the next cache write and a restart recomputes 'declared' from the new configuration. "
+            "TLC checks DropRule / NeverDropDeclared / HandleNeverDangles over reads, handles, polls, clock steps and restarts from caches with any "
+            "stamps (incl. 0); random histories of the real store with the virtual clock are validated, incl. the stamps in every cache write.",
+            "The clock is the synctest bubble's; stamps are whole seconds as in the cache document.",
+            "TLC exhaustive check of Store.tla (expiry configuration) + TLC trace validation of recorded synctest histories",
+            "DESIGN.md §4 C19"),
 }
 
 ALL = ["C%02d" % i for i in range(1, 21)]
